@@ -247,6 +247,21 @@ def export_case(case):
         a = apiobs.observe_api(scope)
         return hashlib.sha256(json.dumps(a, sort_keys=True, ensure_ascii=False).encode()).hexdigest()[:16]
     out['api_digest'] = digest()
+    # for every other resource an ILI index that defines the ILIs it uses is loaded before the
+    # export: an index changes ILI statuses and definitions, never what a lexicon contains
+    used = sorted({y.get('ili') for L in res['lexicons'] for y in L.get('synsets', [])
+                   if y.get('ili') not in (None, '', 'in')})
+    if case['id'] % 2 == 0 and used:
+        ip = d / 'index.tsv'
+        ip.write_text('ILI\tDefinition\n' + ''.join(f'{i}\tindex definition of {i}\n' for i in used),
+                      encoding='utf-8')
+        try:
+            wn.add(ip, progress_handler=None)
+        except JobTimeout:
+            raise
+        except Exception as e:
+            out['st'] = 'exc:index:' + exc_name(e) + ':' + str(e)[:100]
+            return out
     files = {}
     for v in case['versions']:
         row = {'v': v}
